@@ -4,7 +4,9 @@ import tchain
 import gen
 
 OP2 = ["merge", "zip", "(combine_latest add)", "(combine_latest fst)", "with_latest_from", "take_until", "skip_until", "sample", "buffer"]
-UOPS = gen.uop_instances(3)
+# the single-input operators, and higher-order stages that hand every item on unchanged (flat_map / concat_map over of(v), group_by
+# followed by flat_map): identity nodes in the model, several times each so that they are drawn as often as a dozen plain operators
+UOPS = gen.uop_instances(3) + ["(flat_map_of)", "(concat_map_of)", "(group_flat (mod 2))", "(group_flat id)"] * 4
 COLD = ["", "(n 1)", "(n 1) (n 2)", "(n 1) c", "c", "(e 3)", "(n 1) (e 3)", "(n 1) c (n 2)", "(e 3) c", "(n 1) (n 2) c c"]
 SRCS = ["(of 1)", "(of_none)", "(of_err 7)", "(from_iter 1 2 0)", "(from_iter)", "(repeat 2 2)", "(empty)", "(never)", "(throw 7)", "(start 1)"]
 
@@ -103,7 +105,7 @@ def run(tier, seed, replay=None):
                  "the rule; observed by the recording probe and by the closure idiom .on_error(f).on_complete(g).subscribe(h); judged by the grammar "
                  "predicate wf on the implementation's own trace and compared with the model's execution of the same tree; plus every two-input "
                  "operator over all pairs of 8 small subtrees; local and _threads forms" % (3 if tier == "quick" else 4, len(UOPS))) + "; and " + tchain.RULE
-    rep.assumptions = ["flattening operators, group_by and subjects are leaves of this check: their own grammar is decided by C01_flattening / C01_groups "
-                       "here and by the C05 / C20 / C06 correspondences; scheduler-using operators are composed with one operator on either side",
+    rep.assumptions = ["flattening operators and group_by occur inside the trees only in the forms flat_map(of) / concat_map(of) / group_by + flat_map "
+                       "(identity nodes of the model); their general grammar is decided by C01_flattening / C01_groups here and by the C05 / C20 / C06 correspondences; scheduler-using operators are composed with one operator on either side",
                        "user callbacks do not re-enter the pipeline"]
     return rep.finish()
